@@ -141,8 +141,14 @@ let dump w : ostring =
       let key = if ln.ln_id_ok then OHashtbl.find_opt w.ord_of_oid (int_of_nat ln.ln_oid) else None in
       let ks = match key with Some k -> ostring_of_int k | None -> "?" in
       let ps = match ln.ln_parent with None -> "F" | Some p -> ord_of w p in
+      (* a frame left behind by today's createDataFrame with an empty type has neither a type nor a name
+         attribute: the implementation's getters throw (printed "!") *)
+      let broken = (match ln.ln_kind with KFrame -> OLst.exists (fun f -> match f with FStr (l, Some v) -> ostr l = "t" && ostr v = "" | _ -> false) ln.ln_fields | _ -> false) in
+      let show f = (match f with
+          | FStr (l, _) when broken && (ostr l = "t" || ostr l = "n") -> ostr l ^ "=!"
+          | _ -> show_field w f) in
       let txt = OStr.make 1 (char_of_kind ln.ln_kind) ^ ks ^ " p=" ^ ps ^ " " ^
-                OStr.concat " " (OLst.map (show_field w) ln.ln_fields) in
+                OStr.concat " " (OLst.map show ln.ln_fields) in
       match key with
       | Some k -> known := (k, txt) :: !known
       | None -> unknown := txt :: !unknown) lines;
